@@ -304,12 +304,25 @@ def rule_c(ck, R):
                 if strip_cast(p.ret) != it[0].result:
                     bad = 'iteration result not returned'
                 if not fr or 'handle' not in fmt(a[1]) or not sym.contains(a[1], fr[-1].result):
-                    bad = 'iteration does not start at the register found'
+                    # ... or at the register behind the last one of the area that contains addr, when none of that
+                    # area's own registers reaches addr: the table is sorted and linked (C04.e), so that register lies in
+                    # a later area, wholly above addr - it is the first register not below addr
+                    fa_ = p.calls('find_area')
+                    end_ = strip_cast(fr[-1].args[2]) if fr else None
+                    has_regs_ = any(c[0] == 'cmp' and c[1] == '!=' and c[3] == C(0) and 'entry.count' in fmt(c[2]) and fa_ and sym.contains(c[2], fa_[-1].result) for c in conds)
+                    behind = fr and fa_ and has_regs_ and 'entry.last' in fmt(end_) and sym.contains(end_, fa_[-1].result) and \
+                        L(strip_cast(a[1])) == L(end_) + 1 and \
+                        any(c[0] == 'cmp' and c[1] == '==' and sym.contains(c[2], fr[-1].result) and 'valid' in fmt(c[2]) and c[3] == C(0) for c in conds) and \
+                        R.eng.entails(R.eng.path_facts(p), L(strip_cast(a[1])) + 1 - L(entries))
+                    if not behind:
+                        bad = 'iteration does not start at the register found'
             elif fr:
                 # gave up: the search must have covered the rest of the table
                 last = fr[-1].args[2]
                 d = L(last) - (L(entries) - 1)
-                if not (d.is_const() and d.c == 0):
+                # (searched to the last register of the table: literally, or because the path knows that the end of the
+                #  search is not in front of it)
+                if not (d.is_const() and d.c == 0) and not R.eng.entails(R.eng.path_facts(p), (L(entries) - 1) - L(strip_cast(last))):
                     bad = ('gives up after searching only up to %s: registers of later areas that overlap the range are never visited '
                            '(the search must extend to the last register of the table)' % fmt(last))
             for f_ in fr:
@@ -324,7 +337,19 @@ def rule_c(ck, R):
                     bad = bad or 'the start register is searched from handle %s on: registers before it are never candidates' % fmt(f_.args[1])
                 d = L(f_.args[2]) - (L(entries) - 1)
                 if not (d.is_const() and d.c == 0):
-                    bad = bad or 'the start register is searched only up to %s, not to the last register of the table' % fmt(f_.args[2])
+                    # a search confined to the registers of the area that contains addr is complete when the path goes on
+                    # with the register behind that area's last one (or knows that there is none): see above
+                    end_ = strip_cast(f_.args[2])
+                    # (an area without registers has first = last = 0, which names no register of its own: the confined
+                    #  search and the register "behind the last one" mean something only where the path knows count != 0)
+                    has_regs = any(c[0] == 'cmp' and c[1] == '!=' and c[3] == C(0) and 'entry.count' in fmt(c[2]) and fa and sym.contains(c[2], fa[-1].result) for c in conds)
+                    own = fa and has_regs and 'entry.last' in fmt(end_) and sym.contains(end_, fa[-1].result)
+                    found = any(c[0] == 'cmp' and c[1] == '!=' and sym.contains(c[2], f_.result) and 'valid' in fmt(c[2]) and c[3] == C(0) for c in conds)
+                    it_ = p.calls('reg_iterate')
+                    goes_on = it_ and L(strip_cast(it_[0].args[1])) == L(end_) + 1
+                    none_left = R.eng.entails(R.eng.path_facts(p), (L(entries) - 1) - L(end_))
+                    if not (own and (found or goes_on or none_left)):
+                        bad = bad or 'the start register is searched only up to %s, not to the last register of the table' % fmt(f_.args[2])
         if not iterated and bad is None:
             bad = 'no path iterates'
         ck.verdict(bad is None, 'C03.c', 'register_foreach_in', R.where('register_foreach_in'),
